@@ -367,6 +367,7 @@ PROPS["C08"] = {
          "quick": {"checks": 60, "shards": 12, "timeout": 500},
          "thorough": {"checks": 1200, "shards": 16, "timeout": 2400}},
         {"pkg": "verifx/c08", "run": "^TestC08StaleProposalsAfterReorg$", "all": {"shards": 1, "timeout": 300}},
+        {"pkg": "verifx/c08", "run": "^TestC08FailedReorg$", "quick": {"checks": 40, "shards": 4, "timeout": 700}, "thorough": {"checks": 600, "shards": 8, "timeout": 2400}},
     ],
 }
 
@@ -534,3 +535,5 @@ _amend("C02", "level_text", "state root, receipts root and receipts bytes must e
        "state root, receipts root and receipts bytes must equal the producer's every time. Raft unit: blocks with generated mixes of enterprise changeCluster requests (add / remove, malformed, by the admin and by others), admin changes and transfers are built on a node whose consensus layer answers like the raft leader and must be connected with the same roots by a node whose consensus layer answers like a follower.")
 
 _amend("C11", "level_text", "then attacked by ~15 corruption/transplant families;", "then attacked by ~17 corruption/transplant families (among them audit path elements that are not hashes: the tail of a present key's own leaf preimage; keys are drawn with a zero first byte in a quarter of the cases); the empty trie must yield accepted absence proofs; at StateDB level also variables of accounts WITHOUT storage (key possibly another account's id) must be proved absent against the empty storage root;")
+
+_amend("C08", "level_text", "n = 1..4 producers, each running a real node;", "Failed-reorganisation unit: 3-5 producers, a main chain by one of them (nothing irreversible), a longer branch by the others that arrives children-first with an INVALID last block (the roll-forward moves the finality status along the branch and then fails), later completed by the valid block and extended: LIB on the own main chain after every delivery, and the completed branch adopted. Main unit: n = 1..4 producers, each running a real node;")
